@@ -18,6 +18,8 @@ import (
 
 	"pgregory.net/rapid"
 
+	"github.com/zitadel/saml/pkg/provider"
+
 	"verif/harness/ev"
 	"verif/harness/obs"
 )
@@ -95,7 +97,10 @@ type C15SchedCase struct {
 	SharedIDs bool       `json:"shared_request_ids,omitempty"`
 	SameHost  bool       `json:"same_host,omitempty"` // all sessions use one host name (one issuer) instead of one each
 	SameSP    bool       `json:"same_sp,omitempty"`   // all clients are browsers of one service provider and user
-	Schedule  []int      `json:"schedule"`
+	// BaseIssuer: every request's context descends from one application-wide context that already carries an issuer (a
+	// server's BaseContext set up with ContextWithIssuer); each request still gets its own from the interceptor
+	BaseIssuer bool  `json:"base_context_issuer,omitempty"`
+	Schedule   []int `json:"schedule"`
 	// Faults[i]: storage operation -> fault kind, for every call session i makes
 	Faults []map[string]string `json:"faults,omitempty"`
 	// CancelOn[i] != "": the i-th session's user agent goes away (request context cancelled) while the provider is about to do
@@ -157,6 +162,7 @@ func genC15SchedCase(t *rapid.T) C15SchedCase {
 			c.Faults[c.Slow] = map[string]string{strings.TrimPrefix(c.SlowAt, "storage:"): rapid.SampledFrom([]string{"error", "timeout", "nil", "mismatch"}).Draw(t, "slowfault")}
 		}
 	}
+	c.BaseIssuer = rapid.Bool().Draw(t, "baseissuer")
 	c.Schedule = rapid.SliceOfN(rapid.IntRange(0, 7), 0, 60).Draw(t, "schedule")
 	return c
 }
@@ -181,10 +187,14 @@ func c15SchedRun(c C15SchedCase) ([]*ev.Violation, *c15Collect, []string) {
 	w.Store.Before = s.storeHook
 	defer func() { w.Store.Before = nil }()
 	per := make([]*c15Collect, c.N)
+	base := context.Background()
+	if c.BaseIssuer {
+		base = provider.ContextWithIssuer(base, "https://application-wide.example/saml")
+	}
 	var wg sync.WaitGroup
 	for i := 0; i < c.N; i++ {
 		i := i
-		ctx, cancel := context.WithCancel(context.WithValue(context.Background(), schedKey{}, i))
+		ctx, cancel := context.WithCancel(context.WithValue(base, schedKey{}, i))
 		s.cancels[i] = cancel
 		per[i] = &c15Collect{ids: map[string]string{}, byOp: map[string]int{}, sameHost: c.SameHost || c.SameSP, sameSP: c.SameSP}
 		wg.Add(1)
@@ -412,6 +422,7 @@ func genSchedFocused(t *rapid.T, ops []string, sharedIDs, sameSP bool) C15SchedC
 			c.Faults[c.Slow] = map[string]string{strings.TrimPrefix(c.SlowAt, "storage:"): rapid.SampledFrom([]string{"error", "timeout"}).Draw(t, "slowfault")}
 		}
 	}
+	c.BaseIssuer = rapid.Bool().Draw(t, "baseissuer")
 	c.Schedule = rapid.SliceOfN(rapid.IntRange(0, 7), 0, 40).Draw(t, "schedule")
 	return c
 }
